@@ -66,6 +66,9 @@ func ruleR11(c *Ctx) {
 	n := 0
 	for _, u := range c.sortedUnits() {
 		props := c.attribute(u, "C02", "C03", "C04", "C08", "C09")
+		if len(props) == 0 {
+			continue // a walk that no operation named by a property reaches (statistics, debugging)
+		}
 		for _, loop := range c.worklistLoops(u) {
 			n++
 			// variables declared outside the loop and assigned inside it
@@ -144,6 +147,129 @@ func ruleR11(c *Ctx) {
 			}
 			if bad == 0 {
 				c.r.ok("R11", fmt.Sprintf("%s worklist keeps key positions per entry", u.Name), c.m.pos(loop.Pos()), "no integer variable that is carried across iterations is used as an index, slice bound or position argument", props...)
+			}
+			// entries that carry their key position (entry{ref, depth}): every child pushed inside the
+			// loop gets the same position expression – the one computed for the children of the
+			// popped node – and never the popped position itself
+			type pushPos struct {
+				text string
+				pos  token.Pos
+				self bool
+			}
+			var pushes []pushPos
+			poppedPos := map[*types.Var]bool{} // integer locals defined from the popped entry
+			ast.Inspect(loop.Body, func(x ast.Node) bool {
+				as, ok := x.(*ast.AssignStmt)
+				if !ok || as.Tok != token.DEFINE {
+					return true
+				}
+				for i, l := range as.Lhs {
+					v := identVar(info, l)
+					if v == nil || !isIntType(v.Type()) {
+						continue
+					}
+					var rhs ast.Expr
+					if len(as.Rhs) == len(as.Lhs) {
+						rhs = as.Rhs[i]
+					} else if len(as.Rhs) == 1 {
+						rhs = as.Rhs[0]
+					}
+					// q[len(q)-1].depth  /  e.depth with e popped  /  a pop call
+					fromStack := false
+					ast.Inspect(rhs, func(z ast.Node) bool {
+						switch y := z.(type) {
+						case *ast.IndexExpr:
+							if _, isSlice := info.TypeOf(y.X).Underlying().(*types.Slice); isSlice {
+								fromStack = true
+							}
+						case *ast.CallExpr:
+							if _, isPop := c.m.popCall(y); isPop {
+								fromStack = true
+							}
+						}
+						return true
+					})
+					if fromStack {
+						poppedPos[v] = true
+					}
+				}
+				return true
+			})
+			posOf := func(e ast.Expr) (ast.Expr, bool) {
+				// entry{ref: X, depth: D}
+				if cl, ok := ast.Unparen(e).(*ast.CompositeLit); ok {
+					hasRef := false
+					var d ast.Expr
+					for _, el := range cl.Elts {
+						v := el
+						if kv, ok := el.(*ast.KeyValueExpr); ok {
+							v = kv.Value
+						}
+						if c.isNodeRefType(info.TypeOf(v)) {
+							hasRef = true
+						} else if isIntType(info.TypeOf(v)) {
+							d = v
+						}
+					}
+					if hasRef && d != nil {
+						return d, true
+					}
+				}
+				return nil, false
+			}
+			ast.Inspect(loop.Body, func(x ast.Node) bool {
+				if _, isLit := x.(*ast.FuncLit); isLit {
+					return false
+				}
+				call, ok := x.(*ast.CallExpr)
+				if !ok {
+					return true
+				}
+				var d ast.Expr
+				switch {
+				case isBuiltinCall(info, call, "append") && len(call.Args) == 2:
+					d, _ = posOf(call.Args[1])
+				default:
+					// push(child, pos): a local closure or method that takes a reference and an integer
+					if len(call.Args) == 2 && c.isNodeRefType(info.TypeOf(call.Args[0])) && isIntType(info.TypeOf(call.Args[1])) {
+						if v := identVar(info, call.Fun); v != nil && c.m.LitOfVar[v] != nil {
+							d = call.Args[1]
+						}
+					}
+				}
+				if d == nil {
+					return true
+				}
+				pv := identVar(info, d)
+				pushes = append(pushes, pushPos{text: exprText(d), pos: call.Pos(), self: pv != nil && poppedPos[pv]})
+				return true
+			})
+			if len(pushes) >= 2 {
+				count := map[string]int{}
+				for _, pp := range pushes {
+					count[pp.text]++
+				}
+				major := ""
+				for t, k := range count {
+					if major == "" || k > count[major] || (k == count[major] && t < major) {
+						major = t
+					}
+				}
+				key := fmt.Sprintf("%s children are pushed with the position computed for them", u.Name)
+				okAll := true
+				for _, pp := range pushes {
+					switch {
+					case pp.self:
+						okAll = false
+						c.r.bad("R11", key, c.m.pos(pp.pos), fmt.Sprintf("a child is pushed with %s, the position of the popped entry itself: it is scanned as if it sat at its parent's depth, so its compressed path and branch byte are compared with the wrong key bytes", pp.text), props...)
+					case pp.text != major && count[major] > count[pp.text]:
+						okAll = false
+						c.r.bad("R11", key, c.m.pos(pp.pos), fmt.Sprintf("%d of the %d pushes of this loop use position %s, this one uses %s", count[major], len(pushes), major, pp.text), props...)
+					}
+				}
+				if okAll {
+					c.r.ok("R11", key, c.m.pos(loop.Pos()), fmt.Sprintf("all %d pushes use %s", len(pushes), major), props...)
+				}
 			}
 		}
 	}
